@@ -143,7 +143,13 @@ func c38Page(t interface{ Fatalf(string, ...any) }, sm *StateModule, prefixHex s
 		if len(res) > qty {
 			t.Fatalf("%s: page after %q has %d keys, page size %d: %v", ctx, after, len(res), qty, []string(res))
 		}
-		all = append(all, res...)
+		for _, k := range res {
+			if len(all) >= len(want) || want[len(all)] != k {
+				t.Fatalf("%s: page after %q = %v: key %s at position %d of the enumeration, model (ascending keys with the prefix) = %v",
+					ctx, after, []string(res), k, len(all), want)
+			}
+			all = append(all, k)
+		}
 		after = res[len(res)-1]
 		if len(res) < qty && len(all) < len(want) {
 			t.Fatalf("%s: short page %v after %q although keys remain; want all of %v", ctx, []string(res), after, want)
